@@ -92,6 +92,9 @@ def c03(tier, seed):
                "exhaustive enumeration of dependency graphs x placements x base spellings on the real exporter, closure checked with an independent parser and resolver")
     for feats, m in _graph(tier, "C03"):
         r.absorb(m, ("esm." if feats else "cjs."))
+    # C03a: names - on every type of the main corpus
+    _e2("main", tier, "C03", r)
+    r.rule += "; plus, for every type of the main E2 corpus: free names of the swc-parsed decl() == names of WithoutGenerics::dependencies() == names imported by export_to_string()"
     r.assumptions = ["swc_ecma_parser is the TypeScript grammar", "tsmodel::paths is the TypeScript relative-module rule",
                      "`#[ts(type = ..)]` overrides only name built-in types in the corpus (a user-written type string is the user's responsibility)"]
     return r
@@ -209,6 +212,14 @@ def c16(tier, seed):
                "items: 7 struct shapes and enums whose first variant has one of 7 shapes (alone, +1, +2 other variants; the empty enum) x generics {none, <T>, <T: Clone>, <'a,T>, <const N>, <T = i32>, <T,U> where} x identifiers {Item, __, _1, é, Ünï, r#type, r#fn} x every subset of size <= k (quick 2, thorough 3) of attribute options at container x first variant x first field (34 container, 14 variant, 19 field options: every key valid at that position, keys that do not exist there, invalid and missing values), spelled #[ts] and #[serde], under {serde-compat, no features}; 30 hand-picked edge items. Oracle: never a panic; outcome class (expands / compile_error) equals an independent table of the documented incompatibilities and shape restrictions for all-valid-value subsets. distinct = distinct (shape, options, spelling)",
                "exhaustive small-scope enumeration of derive inputs executed in process, outcome compared with an independent validity table")
     c16_e1(tier, r)
+    # rustc's verdict on accepted expansions: every case of the main corpus (valid by construction) must compile
+    name, crates, bins, cases, excluded = driver.e2_build("main", tier)
+    r.evaluations += len(cases)
+    r.counters["main_corpus_cases_compiled_by_rustc"] = len(cases) - len(excluded)
+    for cid, msg in excluded.items():
+        r.violations.append({"class": {"check": "accepted-expansion-does-not-compile"}, "count": 1,
+                             "examples": [{"case": cid, "rustc": msg}]})
+    r.rule += "; plus rustc's verdict: every case of the main E2 corpus (types in the supported fragment, valid by construction) must compile"
     r.assumptions = ["proc_macro2/syn behave in the unit-test build (fallback mode) as inside rustc",
                      "the validity table in e1_macros.rs::expected_outcome transcribes the documented incompatibilities; items with an invalid-value option are only required not to panic"]
     return r
@@ -225,7 +236,52 @@ def c15(tier, seed):
     return r
 
 
+MAIN_RULE = ("main corpus (quick ~1.5k cases / 1.8k types, thorough ~2k / 3k): struct shapes x 25 field types x container {-, rename, tag}; named fields x 11 attribute options (rename forms, skip, inline, flatten, optional, optional=nullable, as, default) alone and in all ordered pairs; flatten of structs, generics and enums of every representation with 0-2 siblings; nested inline/flatten; rename_all (8 rules) x tag on a mixed struct; optional_fields; enums in 4 representations: all shapes packed, every single shape, ordered shape pairs, 25 payload types, variant attributes {rename, skip, rename_all, untagged} x shapes, payload-field attributes {skip, inline, rename, flatten, optional} x positions, rename_all / rename_all_fields; generic structs/enums instantiated at 5 arguments; 11 unusual identifiers x 8 rules x {field, variant-field, variant}; nesting of every 9th (thorough 3rd) type inside struct/enum/generic/map wrappers to depth 3")
+
+
+def _e2(corpus, tier, prop, r, features=("serde-json-impl",)):
+    name, crates, bins, cases, excluded = driver.e2_build(corpus, tier, features=features)
+    m = driver.run_shards(bins, crates, prop)
+    r.absorb(m, corpus + ".")
+    r.counters[corpus + ".cases_generated"] = len(cases)
+    r.counters[corpus + ".cases_excluded_because_they_do_not_compile"] = len(excluded)
+    if excluded:
+        print(f"NOTE: {len(excluded)} generated cases of corpus {corpus} do not compile against this tree and are excluded here; C16 reports them")
+    return cases, excluded
+
+
+def c01(tier, seed):
+    r = Result("exploration", MAIN_RULE + "; values: full product of tiny per-field domains (ints {0,1,-1}, bool both, Option None/Some, Vec len 0/1/2, maps size 0/1, every variant), capped at 48 per constructor (one-factor-at-a-time above); oracle: serde_json::to_value(v) is a member of the TypeScript type parsed by swc from name()/inline()/decl() in the environment of all declarations (exact objects, bigint = integer, intersections by merging). distinct = distinct case sources",
+               "exhaustive small-scope enumeration of type definitions x values, compiled against the real derive, serde and serde_json; membership in the swc-parsed type model")
+    _e2("main", tier, "C01", r)
+    r.assumptions = ["swc parser + tsmodel denotation (unit-tested) is the meaning of the generated TypeScript", "serde_json is the wire format",
+                     "values serde refuses to serialize at run time are counted, not checked", "non-finite floats are outside the value alphabet"]
+    return r
+
+
+def c02(tier, seed):
+    r = Result("exploration", MAIN_RULE + "; restricted to types on which serde round-trips its own output; candidates: every witness of the declared type (each union arm, optional-property subsets, arrays 0..2, maps 0..1, strings {\"\",a}, numbers {1,2}; products capped at 256 with one-factor-at-a-time above) plus every one-step mutant (drop/null/rename a property, grow/shrink an array, swap a string for another literal or key of the type) of up to 12 real serialized samples that still inhabits the type; oracle: serde_json::from_value::<T> accepts it and the re-serialized value inhabits the type. distinct = distinct case sources",
+               "type-directed exhaustive witness enumeration + near-miss mutants, decided by the real serde Deserialize impls")
+    _e2("main", tier, "C02", r)
+    r.assumptions = ["witness bounds as stated; char-typed leaves restrict strings to one character as the property allows",
+                     "types that fail serde's own round trip are excluded (counted)"]
+    return r
+
+
+def c04(tier, seed):
+    r = Result("exploration", "every export_to_string() of the main corpus (" + MAIN_RULE + ") and every file written by the dependency-graph corpus (see C03) under import-esm off/on; oracle: swc parses the text as a module without errors; first line is the notice; only `import type` then only `export type`; declared names == types exported to the file, each once; ends with a newline. distinct = distinct case sources / (root, locations)",
+               "exhaustive enumeration of exported files, parsed with an independent TypeScript grammar")
+    _e2("main", tier, "C04", r)
+    for feats, m in _graph(tier, "C04"):
+        r.absorb(m, ("graph-esm." if feats else "graph-cjs."))
+    r.assumptions = ["swc_ecma_parser 0.144 is the independent TypeScript grammar"]
+    return r
+
+
 CHECKS = {
+    "C01": c01,
+    "C02": c02,
+    "C04": c04,
     "C09": c09,
     "C10": c10,
     "C15": c15,
